@@ -22,7 +22,8 @@ EvMatch(me, je) ==
   /\ CASE me.ev \in {"tx", "dispatch"}      -> me.c = je.c /\ MsgEq(me.m, je.m)
        [] me.ev \in {"sock_close", "accept"} -> me.c = je.c
        [] me.ev = "dial"                     -> me.c = je.c /\ me.p = je.p /\ me.r = je.r
-       [] me.ev \in {"app_req", "app_ans"}   -> me.a = je.a /\ MsgEq(me.m, je.m)
+       [] me.ev = "app_req"                  -> me.a = je.a /\ me.c = je.c /\ MsgEq(me.m, je.m)
+       [] me.ev = "app_ans"                  -> me.a = je.a /\ MsgEq(me.m, je.m)
        [] me.ev = "submit"                   -> me.a = je.a /\ HdrEq(me.m, je.m) /\ me.r = je.r
 OutMatch(mo, jo) == Len(mo) = Len(jo) /\ \A i \in 1..Len(mo) : EvMatch(mo[i], jo[i])
 
